@@ -355,6 +355,50 @@ fn gen_hostile(rng: &mut Rng) -> Schedule {
     Schedule { kind: "hostile", queues, frames, sent: HashMap::new(), clean: false }
 }
 
+/// "count matches, coverage does not": `a` regular frames chosen from a pool that includes indices at and beyond
+/// the LAST frame and around the 128-bit word boundary of the receive mask, plus a LAST frame at index `a`
+/// (so that the number of received frames equals the expected number) – in random order, after an honest
+/// packet has filled the slot with non-zero bytes
+fn gen_count_match(rng: &mut Rng) -> Schedule {
+    let queues = rng.range(1, 2) as usize;
+    let w = *rng.pick(&[MIN_PAYLOAD_SIZE, MIN_PAYLOAD_SIZE + 1, 300]);
+    let a = *rng.pick(&[1usize, 2, 2, 3, 3, 4, 5, 126, 127, 128, 129, 130]);
+    let mut pool: Vec<usize> = (0..a + 3).collect();
+    pool.extend([126usize, 127, 128, 129, 130, 131, 200, 253, 254]);
+    pool.sort();
+    pool.dedup();
+    pool.retain(|i| *i != a && i * w + w <= 65535);
+    rng.shuffle(&mut pool);
+    // mostly the honest set 0..a with one or two members swapped for others
+    let mut chosen: Vec<usize> = (0..a).collect();
+    let swaps = rng.range(0, 2);
+    for _ in 0..swaps {
+        if chosen.is_empty() { break; }
+        let k = rng.below(chosen.len() as u64) as usize;
+        if let Some(n) = pool.iter().find(|i| !chosen.contains(i)) {
+            chosen[k] = *n;
+        }
+    }
+    let so = 7u64;
+    let mut frames: Vec<Vec<u8>> = chosen.iter().map(|i| { let pl = rng.bytes(w); mk_frame(so, (i * w) as u16, 0, &pl, 0) }).collect();
+    let last_len = *rng.pick(&[1usize, 10, w - 1, w]);
+    if a * w + last_len <= 65535 {
+        let pl = rng.bytes(last_len);
+        frames.push(mk_frame(so, (a * w) as u16, 0x8000, &pl, 0));
+    }
+    rng.shuffle(&mut frames);
+    // fill the slot first
+    let mut pre = vec![];
+    let mut fr = Fragmenter::new_unobserved(9000);
+    let data = rng.bytes(65535);
+    let _ = fr.send(&data, |f| pre.push(f.to_vec()));
+    for f in pre.iter_mut() {
+        f[0..8].copy_from_slice(&500_000u64.to_be_bytes());
+    }
+    pre.extend(frames);
+    Schedule { kind: "count-match", queues, frames: pre, sent: HashMap::new(), clean: false }
+}
+
 /// corpus line: `<queues> <hexframe> <hexframe> …`
 fn parse_corpus_line(l: &str) -> Option<Schedule> {
     let mut it = l.split_whitespace();
@@ -438,6 +482,8 @@ fn main() {
             if i % 2 == 0 {
                 let s = gen_honest(&mut rng, &mut rep, &mut lean);
                 schedules.push(s);
+            } else if i % 8 == 1 {
+                schedules.push(gen_count_match(&mut rng));
             } else {
                 schedules.push(gen_hostile(&mut rng));
             }
